@@ -79,6 +79,16 @@ def run_parts(pid, run, tier, tmpdir):
             r = subprocess.run(cmd, stdout=subprocess.PIPE, stderr=subprocess.PIPE, text=True, env=env,
                                timeout=hard, errors="replace")
         except subprocess.TimeoutExpired:
+            # every harness polls its deadline and stops on its own; a partition that is still running at 1.5 x deadline
+            # + 120 s is stuck inside the code under test (an endless loop on an input of the enumerated domain): that is
+            # a violation ("terminates"), not a harness error.  Replay = the partition with the same limit.
+            if deadline:
+                return (i, {"exhaustive": False, "violations": [{
+                    "sig": "%s/hang/%s/partition-exceeds-time-limit" % (pid, run["harness"]), "count": 1,
+                    "case": PARTCASE + json.dumps({"args": cmd[1:], "limit": hard}),
+                    "detail": "partition %d of %s did not end within %d s (its own deadline is %d s): the code under test "
+                              "does not return on an input of the enumerated domain" % (i, run["harness"], hard, deadline)}],
+                    "caps": ["partition %d stuck" % i]}, None)
             return (i, None, "hard timeout after %ds: %s" % (hard, " ".join(cmd)))
         if r.returncode != 0 or not os.path.exists(out):
             how = death_kind(r.returncode, r.stderr)
@@ -161,15 +171,19 @@ def death_kind(rc, stderr):
 def replay_partition(exe, run, case):
     """a crash of a whole partition is replayed by running that partition again: exit 1 iff it dies the same way"""
     args = json.loads(case[len(PARTCASE):])
+    limit = 7200
+    if isinstance(args, dict):  # a stuck partition: {"args": [...], "limit": seconds}
+        limit = args["limit"]
+        args = args["args"]
     out = os.path.join(build.BUILD, "tmp", "replay-part-%d.json" % os.getpid())
     os.makedirs(os.path.dirname(out), exist_ok=True)
     if "--out" in args:
         args[args.index("--out") + 1] = out
     try:
         r = subprocess.run([exe] + args, stdout=subprocess.PIPE, stderr=subprocess.PIPE, text=True,
-                           env=run_env(run), timeout=7200, errors="replace")
+                           env=run_env(run), timeout=limit, errors="replace")
     except subprocess.TimeoutExpired:
-        return 124, "partition replay timed out"
+        return (1, "partition did not end within %d s\n" % limit) if limit != 7200 else (124, "partition replay timed out")
     global LAST_STDERR
     LAST_STDERR = r.stderr
     how = death_kind(r.returncode, r.stderr)
